@@ -600,28 +600,28 @@ static void huge_tamper_case(const args_t *a, long idx, const variant_t *v)
     munmap(ad, big + 16);
 }
 
-/* message of 2^32 + 5 bytes, encrypted and decrypted in place: exact round-trip oracle */
-static void huge_msg_case(const args_t *a, long idx, const variant_t *v)
+/* message of 2^32 + 5 (and 2^31 + 3: sign bit of a 32-bit length) bytes, encrypted and decrypted in place: exact round-trip oracle */
+static void huge_msg_case(const args_t *a, long idx, const variant_t *v, size_t mlen)
 {
-    size_t mlen = ((size_t)1 << 32) + 5, clen = 0, ml2 = 0, i, bad = 0;
+    size_t clen = 0, ml2 = 0, i, bad = 0;
     uint8_t *buf = huge_map(mlen + 64), k[32], n[12], ad[8], probe[64];
     rng_t r = rng_for(a->seed, 0x4062, (uint64_t)idx);
     char key[96];
     int rc;
     set_case("{\"h\":\"aead\",\"mode\":\"huge-message\",\"v\":\"%s\",\"i\":%ld,\"adlen\":3,\"mlen\":%zu,\"alias\":\"in place\"}", v->name, idx, mlen);
     ++n_cases; ++n_long; ++n_inplace;
-    cls_add(mix64(0x4062, (uint64_t)(v - VARS)));
+    cls_add(mix64(0x4062, (uint64_t)(v - VARS) + (mlen >> 31) * 8));
     emit_sample();
     fill_random(&r, k, 32); fill_random(&r, n, 12); fill_random(&r, ad, 8);
     huge_fill(buf, mlen, a->seed * 7 + (uint64_t)idx);
     memcpy(probe, buf + mlen - 40, 40);
     memset(buf + mlen, 0xAB, 64);
     v->enc(buf, &clen, buf, mlen, ad, 3, n, k); ++n_enc;
-    if (clen != mlen + 8) { snprintf(key, sizeof key, "clen-wrong:%s", v->name); emit_viol(key, "*clen=%zu for mlen=2^32+5", clen); }
+    if (clen != mlen + 8) { snprintf(key, sizeof key, "clen-wrong:%s", v->name); emit_viol(key, "*clen=%zu for mlen=%zu", clen, mlen); }
     for (i = 8; i < 64; ++i) if (buf[mlen + i] != 0xAB) { snprintf(key, sizeof key, "encrypt-wrote-outside:%s", v->name); emit_viol(key, "byte %zu after the packet was modified", i); break; }
-    if (!memcmp(probe, buf + mlen - 40, 40)) { snprintf(key, sizeof key, "length-truncated:%s:mlen", v->name); emit_viol(key, "the last 40 bytes of a 2^32+5 byte message were not encrypted"); }
+    if (!memcmp(probe, buf + mlen - 40, 40)) { snprintf(key, sizeof key, "length-truncated:%s:mlen", v->name); emit_viol(key, "the last 40 bytes of a %zu byte message were not encrypted", mlen); }
     rc = v->dec(buf, &ml2, buf, mlen + 8, ad, 3, n, k); ++n_dec;
-    if (rc != 0 || ml2 != mlen) { snprintf(key, sizeof key, "roundtrip-rejected:%s:huge-message", v->name); emit_viol(key, "decrypt(encrypt(m)) returned %d, *mlen=%zu for mlen=2^32+5", rc, ml2); }
+    if (rc != 0 || ml2 != mlen) { snprintf(key, sizeof key, "roundtrip-rejected:%s:huge-message", v->name); emit_viol(key, "decrypt(encrypt(m)) returned %d, *mlen=%zu for mlen=%zu", rc, ml2, mlen); }
     else {
         /* compare with a regenerated copy of the plaintext, chunk by chunk */
         uint8_t *ref = huge_map(1 << 20);
@@ -631,7 +631,7 @@ static void huge_msg_case(const args_t *a, long idx, const variant_t *v)
           for (; j < mlen; ++j) if (buf[j] != (uint8_t)(j * 131 + sd)) { ++bad; if (bad == 1) i = j; } }
         munmap(ref, 1 << 20);
         n_bytes_cmp += mlen;
-        if (bad) { snprintf(key, sizeof key, "roundtrip-plaintext:%s:huge-message", v->name); emit_viol(key, "%zu words of the recovered 2^32+5 byte plaintext differ, first near offset %zu", bad, i); }
+        if (bad) { snprintf(key, sizeof key, "roundtrip-plaintext:%s:huge-message", v->name); emit_viol(key, "%zu words of the recovered %zu byte plaintext differ, first near offset %zu", bad, mlen, i); }
     }
     munmap(buf, mlen + 64);
 }
@@ -909,7 +909,9 @@ int main(int argc, char **argv)
         NL = 0; W = -1;
     }
     if (strstr(a.mode, "hugemsg")) {
-        for (vi = 0; vi < 3; ++vi, ++idx) if (mine(&a, idx)) huge_msg_case(&a, idx, &VARS[vi]);
+        int li;
+        for (li = 0; li < 2; ++li)
+            for (vi = v0; vi < v0 + 3; ++vi, ++idx) if (mine(&a, idx)) huge_msg_case(&a, idx, &VARS[vi], li ? ((size_t)1 << 31) + 3 : ((size_t)1 << 32) + 5);
         NL = 0; W = -1;
     }
     if (strstr(a.mode, "sweep")) {
